@@ -4,7 +4,8 @@ use crate::iso::guarded;
 use serde_json::{json, Value};
 use std::str::FromStr;
 
-const TOKS: [&str; 9] = ["a", "d41d8cd98f00b204e9800998ecf8427e", "pool/main/f/foo_1.0-1.dsc", "~+.é日", "D41D8CD98F00B204E9800998ECF8427E", "0", "-", "a,b;c:d", "UPPER_lower.123%7E[x]"];
+// (token 5: upper-case hex of 129 characters - one more than the longest digest)
+const TOKS: [&str; 9] = ["a", "d41d8cd98f00b204e9800998ecf8427e", "pool/main/f/foo_1.0-1.dsc", "~+.é日", "D41D8CD98F00B204E9800998ECF8427ED41D8CD98F00B204E9800998ECF8427ED41D8CD98F00B204E9800998ECF8427ED41D8CD98F00B204E9800998ECF8427Ef", "0", "-", "a,b;c:d", "UPPER_lower.123%7E[x]"];
 const INTS: [&str; 4] = ["0", "1", "2147483647", "9223372036854775808"];
 const URLS: [&str; 5] = ["https://salsa.debian.org/jelmer/deb822-lossless.git", "lp:foo", "git://x.example/~u/r?a=b", "https://[2001:db8::1]:8443/git/foo.git", "ssh://git@host.example:2222/~user/-b/repo.git"];
 const BR: [&str; 2] = ["main", "debian/sid"];
